@@ -77,6 +77,10 @@ func c07Cases() []c07Case {
 	for _, f := range []string{"unicast-write-fails", "unicast-write-fails+cancel"} {
 		cs = append(cs, c07Case{Name: "single/" + f, RS: pats[0].rs, Fault: f})
 	}
+	// ... while the scheduler is busy with a multicast request (a solicitation from :: at
+	// the same instant; the periodic tick at 4 s).
+	cs = append(cs, c07Case{Name: "with-unspecified/unicast-write-fails", RS: []c07RS{{"fe80::1", true, 3500 * ms}, {"::", false, 3500 * ms}}, Fault: "unicast-write-fails"},
+		c07Case{Name: "at-tick/unicast-write-fails", RS: []c07RS{{"fe80::1", true, 4000 * ms}}, Fault: "unicast-write-fails"})
 	return cs
 }
 
@@ -298,8 +302,9 @@ func c07Scenario(c c07Case) *vsched.Scenario {
 				}
 			}
 		}
-		// Solicitations from :: are served by an all-nodes RA within 3s.
-		if !c.UnicastOnly {
+		// Solicitations from :: are served by an all-nodes RA within 3s (unless the session
+		// was ended by the injected transmit failure meanwhile).
+		if !c.UnicastOnly && (c.Fault == "" || c.Fault == "reinit") {
 			for _, r := range reads {
 				if r.src != "::" {
 					continue
